@@ -1,7 +1,7 @@
 (* C11 - Coins already on the orbiter account never alter, fund or block a transfer. *)
 From Coq Require Import String List ZArith Bool.
 From Orbiter Require Import Lib.Res Gen.Constants Model.Ids Model.Env Model.Payload Model.State Model.Pipeline Model.Msgs
-     Proofs.Ledger Proofs.PipelineProofs Proofs.TransferProps Proofs.Gates Proofs.GasProofs Props.Examples Props.OpenFindings.
+     Proofs.Ledger Proofs.PipelineProofs Proofs.TransferProps Proofs.Gates Proofs.GasProofs Proofs.GasExact Props.Examples Props.OpenFindings.
 Import ListNotations.
 Open Scope string_scope.
 Open Scope Z_scope.
@@ -47,6 +47,21 @@ Theorem C11_open_gas_hook :
     bal (w_l (rr_world (recv_gas g cfg e w p [] 0))) (cfg_orbiter cfg) "ufoo" <> bal (w_l w) (cfg_orbiter cfg) "ufoo".
 Proof. exact open_C11_gas_hook. Qed.
 Print Assumptions C11_open_gas_hook.
+
+(* ... and EXACTLY how: for a packet through a charging hook that succeeds on one ledger, the outcome on any
+   other ledger (any coins on the orbiter account, or none) is decided by one thing only - whether the account
+   holds the hook's quote q in the hook's denomination gd, coins that have nothing to do with the transfer.
+   With them the transfer succeeds (and spends them), without them the same packet is refused. *)
+Theorem C11_gas_hook_exact : forall g cfg e w l2 p,
+  wf_cfg cfg ->
+  pkt_gas_free g p = false ->
+  rr_out (recv_gas g cfg e w p [] 0) = OAckOk ->
+  (forall d, 0 <= bal (w_l w) (cfg_orbiter cfg) d) -> (forall d, 0 <= bal l2 (cfg_orbiter cfg) d) ->
+  exists payee gd q,
+    In (MSend (cfg_orbiter cfg) payee gd q) (rr_moves (recv_gas g cfg e w p [] 0)) /\ 0 < q /\
+    (rr_out (recv_gas g cfg e {| w_o := w_o w; w_l := l2 |} p [] 0) = OAckOk <-> q <= bal l2 (cfg_orbiter cfg) gd).
+Proof. exact gas_hook_exact. Qed.
+Print Assumptions C11_gas_hook_exact.
 
 (* and the two runs do the same thing: the same calls with the same requests after the sweep (so
    the same fee credits, the same amount and parameters forwarded), the same movements after the
